@@ -27,7 +27,7 @@ FLOORS = {"quick": {"init.components": 100000, "backend_eq": 100000, "rebuild.bo
                        "utc_decomposition": 30000, "pd.contract": 2 * 10**6}}
 REQUIRED_HOOKS = ["Interval.__init__"]
 EXHAUSTIVE = {"quick": False, "thorough": False}
-TECHNIQUE = "runtime contracts on Interval construction and on both precise_diff implementations: range + rebuild (independent calendar model) + negation symmetry + in-process backend equality"
+TECHNIQUE = "runtime contracts on Interval construction and on both precise_diff implementations: range + rebuild (independent calendar model) + negation symmetry + in-process backend equality; operand-class independence (native / pendulum endpoints)"
 LEVEL_TEXT = ("every Interval built by the workloads is judged for canonical component ranges and for rebuilding its end from its "
               "start with an independent calendar model; both precise_diff implementations are called on identical native "
               "arguments and compared field by field; enumerated month/day/leap/borrow shapes plus random pairs; held on what was observed")
